@@ -151,6 +151,19 @@ def c18_tables():
     parts.append("/-- code points accepted as a path-segment character by ERROR_MESSAGE_REGEX (probed: fullmatch('/a/'+c) over every "
                  "code point), as inclusive ranges -/\n"
                  "def c18SegRanges : List (Nat × Nat) := [" + ", ".join(f"({a}, {b})" for a, b in ranges) + "]")
+    # Python's own notions of line boundary (str.splitlines) and blank (str.strip), probed over every code point
+    lbs, blanks = [], []
+    for cp in range(0x110000):
+        if 0xD800 <= cp <= 0xDFFF:
+            continue
+        ch = chr(cp)
+        if len(("a" + ch + "b").splitlines()) == 2:
+            lbs.append(cp)
+        if ch.strip() == "":
+            blanks.append(cp)
+    parts.append("/-- code points at which str.splitlines() breaks a line (probed) -/\ndef c18LineBreaks : List Nat := ["
+                 + ", ".join(map(str, lbs)) + "]")
+    parts.append("/-- code points str.strip() removes (probed) -/\ndef c18StripBlanks : List Nat := [" + ", ".join(map(str, blanks)) + "]")
     probes = {
         "two_segments_needed": rx.fullmatch("/ab") is None and rx.fullmatch("/a/b") is not None,
         "greedy_all_segments": (rx.search("x /a/b/c/d y") or [""])[0] == "/a/b/c/d",
